@@ -25,7 +25,17 @@ def scratch_dir(prefix: str = "kioverif-") -> str:
     return tempfile.mkdtemp(prefix=prefix)
 
 
-def run_tlc(module: str, cfg: str | None = None, env: dict | None = None, workers: int = 1,
+def run_tlc(module: str, *a, **kw) -> dict:
+    """run_tlc_once, retried once when the JVM died without TLC reporting anything (e.g. it was
+    killed under memory pressure) - a spec error or invariant violation is never retried."""
+    res = run_tlc_once(module, *a, **kw)
+    if res["rc"] != 0 and "Error:" not in res["out"] and "is violated" not in res["out"]:
+        time.sleep(2)
+        res = run_tlc_once(module, *a, **kw)
+    return res
+
+
+def run_tlc_once(module: str, cfg: str | None = None, env: dict | None = None, workers: int = 1,
             timeout: int = 3600, xmx: str = "3g", extra: list[str] | None = None,
             spec_dir: str = SPEC_DIR, simulate: str | None = None, deque: bool = False) -> dict:
     """Run TLC on spec_dir/module.tla.  Returns dict(rc, out, states, distinct, depth, wall)."""
